@@ -17,4 +17,9 @@ def evaluate(tr, props):
         if fn is None:
             continue
         out.extend(fn(tr))
+    from dst.oracles.c13 import first_failure_seq
+
+    ff = first_failure_seq(tr)
+    for v in out:
+        v["keys"]["after_failure"] = bool(ff is not None and v.get("seq") is not None and v["seq"] > ff)
     return out
